@@ -611,6 +611,10 @@ impl Tracer {
                 }
                 Some(StopReason::SignalStop(_, signal)) => {
                     if QUIET_SIGNALS.contains(&signal) {
+                        // the signal is delivered right now, together with the step:
+                        // forget the injection request queued by `apply_new_status`,
+                        // otherwise the next resume delivers it a second time
+                        self.inject_signal_queue.pop_back();
                         self.tracee_ctl.tracee_ensure(pid).step(Some(signal))?;
                         continue;
                     }
